@@ -72,7 +72,7 @@ fn new_slot() -> Box<Slot> {
 }
 
 /// Execute one executor several times on fresh contexts, in mixed modes; the plain runs must agree.
-fn reuse<C: CellType>(backend: Backend, code: &str, level: u32, input: &[u8]) -> Result<u64, String> {
+fn reuse<C: CellType>(backend: Backend, code: &str, level: u32, input: &[u8], canon: (u64, u64), limited_first: bool) -> Result<u64, String> {
     let exec: Box<dyn Executable<C> + '_> = match backend {
         Backend::Inplace => Box::new(InplaceInterpreter::<C>::create(code, level).map_err(|_| "create")?),
         Backend::IrInt => Box::new(IrInterpreter::<C>::create(code, level).map_err(|_| "create")?),
@@ -80,7 +80,12 @@ fn reuse<C: CellType>(backend: Backend, code: &str, level: u32, input: &[u8]) ->
         Backend::Jit => Box::new(BaseJitCompiler::<C>::create(code, level).map_err(|_| "create")?),
     };
     // (mode, budget, fault)
-    let plan: [(u8, usize, Option<u64>); 6] = [(0, 0, None), (1, 7, None), (0, 0, Some(1)), (0, 0, None), (1, 1 << 40, None), (0, 0, None)];
+    // two orders: an executor must not remember which entry point was used first
+    let plan: [(u8, usize, Option<u64>); 6] = if limited_first {
+        [(1, 3, None), (0, 0, None), (1, 7, None), (0, 0, Some(1)), (1, 1 << 40, None), (0, 0, None)]
+    } else {
+        [(0, 0, None), (1, 7, None), (0, 0, Some(1)), (0, 0, None), (1, 1 << 40, None), (0, 0, None)]
+    };
     let mut plain: Vec<(u64, u64)> = Vec::new();
     let mut limited_full: Option<(u64, u64, bool)> = None;
     let mut execs = 0u64;
@@ -111,6 +116,13 @@ fn reuse<C: CellType>(backend: Backend, code: &str, level: u32, input: &[u8]) ->
     if plain.windows(2).any(|w| w[0] != w[1]) {
         return Err(format!("repeated plain executions of one executor differ: {:?}", plain));
     }
+    if plain[0] != canon {
+        return Err(format!(
+            "plain execution on a reused executor (order: {}) produced {} events (hash {:x}), the canonical run {} (hash {:x})",
+            if limited_first { "limited first" } else { "plain first" },
+            plain[0].0, plain[0].1, canon.0, canon.1
+        ));
+    }
     if let Some((n, h, fin)) = limited_full {
         if fin && (n, h) != plain[0] {
             return Err("an unlimited-budget execution of the same executor differs from the plain executions".to_string());
@@ -119,12 +131,12 @@ fn reuse<C: CellType>(backend: Backend, code: &str, level: u32, input: &[u8]) ->
     Ok(execs)
 }
 
-fn reuse_w(backend: Backend, code: &str, bits: u32, level: u32, input: &[u8]) -> Result<u64, String> {
+fn reuse_w(backend: Backend, code: &str, bits: u32, level: u32, input: &[u8], canon: (u64, u64), limited_first: bool) -> Result<u64, String> {
     let r = catch_unwind(AssertUnwindSafe(|| match bits {
-        8 => reuse::<u8>(backend, code, level, input),
-        16 => reuse::<u16>(backend, code, level, input),
-        32 => reuse::<u32>(backend, code, level, input),
-        _ => reuse::<u64>(backend, code, level, input),
+        8 => reuse::<u8>(backend, code, level, input, canon, limited_first),
+        16 => reuse::<u16>(backend, code, level, input, canon, limited_first),
+        32 => reuse::<u32>(backend, code, level, input, canon, limited_first),
+        _ => reuse::<u64>(backend, code, level, input, canon, limited_first),
     }));
     match r {
         Ok(x) => x,
@@ -179,9 +191,10 @@ fn c13_case(seed: u64, idx: u64, corpus: &Corpus, thorough: bool, table: &mut BT
     if idx % 2 == 0 {
         let input: Vec<u8> = vec![2, 0, 3, 1];
         let sp = crate::spec::run(&case.code, &input, crate::spec::SpecOpts { bits: case.bits, step_cap: 50_000, event_cap: sys::EV_CAP, detect_cycles: false });
-        if matches!(&sp, Some(s) if s.status == crate::spec::Status::Halted) {
+        if let Some(s) = sp.as_ref().filter(|s| s.status == crate::spec::Status::Halted) {
+            let canon = (s.total_events, s.ev_hash);
             for b in [Backend::Inplace, Backend::IrInt, Backend::BcInt, Backend::Jit] {
-                match reuse_w(b, &case.code, case.bits, levels[0], &input) {
+                match reuse_w(b, &case.code, case.bits, levels[0], &input, canon, idx % 4 == 0) {
                     Ok(n) => sh.scratch[4] += n,
                     Err(e) => return Some(format!("L{} {}: {e}", levels[0], b.name())),
                 }
@@ -428,7 +441,20 @@ pub fn c13_replay(args: &Args) -> i32 {
             }
         }
         for be in [Backend::Inplace, Backend::IrInt, Backend::BcInt, Backend::Jit] {
-            if let Err(e) = reuse_w(be, &code, bits, level, &[2, 0, 3, 1]) {
+            let sp = crate::spec::run(&code, &[2, 0, 3, 1], crate::spec::SpecOpts { bits, step_cap: 50_000, event_cap: sys::EV_CAP, detect_cycles: false });
+            let canon = match sp {
+                Some(s) if s.status == crate::spec::Status::Halted => (s.total_events, s.ev_hash),
+                _ => continue,
+            };
+            for lf in [false, true] {
+                if let Err(e) = reuse_w(be, &code, bits, level, &[2, 0, 3, 1], canon, lf) {
+                    if e != "create" {
+                        println!("L{level} {}: {e}", be.name());
+                        bad += 1;
+                    }
+                }
+            }
+            if let Err(e) = Ok::<u64, String>(0) {
                 if e != "create" {
                     println!("L{level} {}: {e}", be.name());
                     bad += 1;
